@@ -385,7 +385,7 @@ Section Values.
     | UnregUtility c _ _ => ok_ov c
     | RegAdapter f _ _ _ _ | RegSub f _ _ _ _ | RegHandler f _ _ _ => okv f
     | UnregAdapter f _ _ _ | UnregSub f _ _ _ | UnregHandler f _ _ => ok_ov f
-    | Reinit => true
+    | UtilityBoth _ _ _ _ | Reinit => true
     end.
 
   Lemma v_eq_ok a b : okv a = true -> okv b = true -> v_eq a b = Nat.eqb (veq a) (veq b).
@@ -1455,6 +1455,7 @@ Section Refinement.
     - now apply step_unregS.
     - now apply step_regH.
     - now apply step_unregH.
+    - unchanged I R.
     - unfold step_claim. cbn. split; [apply inv_init | split; [apply refines_init | split; [reflexivity | intros _; reflexivity]]].
   Qed.
 
